@@ -6,6 +6,7 @@ CONSTANTS
   Leaves <- L3
   MaxEv = 1
   MaxRcpt = 1
+  CodecStatuses = {"SUCCESS", "ERROR"}
   CumLens = {0}
   NameChars = {1, 2}
   MaxName = 2
